@@ -19,6 +19,7 @@ import (
 	"sort"
 	"strconv"
 	"strings"
+	"syscall"
 	"time"
 
 	"github.com/AdguardTeam/AdGuardHome/internal/verifx/lib"
@@ -704,6 +705,11 @@ func setup() {
 }
 
 func runAll(c *lib.Ctx) {
+	// Requests with extreme limit/offset values are part of the alphabet: an
+	// address-space limit turns a runaway allocation of the code under test
+	// into an immediate fatal error of this worker instead of exhausting the
+	// machine.
+	_ = syscall.Setrlimit(syscall.RLIMIT_AS, &syscall.Rlimit{Cur: 24 << 30, Max: 24 << 30})
 	setup()
 	defer vtime.SetVirtual(time.Time{})
 	unit := 0
